@@ -66,6 +66,7 @@ MAXDEN = 2 ** 10
 # JSON scopes / expressions:
 #   expr  = ['c', 'num/den'] | ['v', name] | ['+', a, b] | ['-', a, b] | ['*', a, b]
 #         | ['/', a, 'q'] (division by the non-zero constant q) | ['min', a, b] | ['max', a, b]
+#         | ['div', a, b] (division by any expression; a divisor of value 0 cannot be evaluated)
 #   scope = {'t':'dict','vals':[[name,'q'],..],'vol':[names]} | {'t':'mapped','o':scope,'m':[[name,expr],..]}
 #         | {'t':'range','i':scope,'n':name,'v':'q'} | {'t':'joint','l':[[name,scope],..]}
 
@@ -84,27 +85,52 @@ def e_vars(e):
     return e_vars(e[1]) + e_vars(e[2])
 
 
-def e_eval(e, env):
-    """exact evaluation; None if a variable is missing; raises OverflowError if a magnitude bound is exceeded"""
+def _pow2(q):
+    n, d = abs(q.numerator), q.denominator
+    return (n == 1 and d & (d - 1) == 0) or (d == 1 and n & (n - 1) == 0)
+
+
+def e_eval(e, env, strict=True):
+    """exact evaluation; None if a variable is missing or a divisor is 0; strict: raises OverflowError if a magnitude
+    bound is exceeded or a divisor expression has a value that is not +-2^k (the implementation divides in binary
+    floating point: only then every quotient, also of sympy's rewritten form a * b**-1, is exact)"""
+    if not strict:
+        try:
+            return _e_eval(e, env, False)
+        except ZeroDivisionError:
+            return None
+    return _e_eval(e, env, True)
+
+
+def _e_eval(e, env, strict):
     if e[0] == 'c':
         return V(e[1])
     if e[0] == 'v':
         x = env.get(e[1])
         return V(x) if isinstance(x, str) else x
     if e[0] == '/':
-        a = e_eval(e[1], env)
+        a = _e_eval(e[1], env, strict)
         if a is None:
             return None
         r = a / F(e[2])
-        if abs(r.numerator) > MAXNUM or r.denominator > MAXDEN:
+        if strict and (abs(r.numerator) > MAXNUM or r.denominator > MAXDEN):
             raise OverflowError
         return r
-    a, b = e_eval(e[1], env), e_eval(e[2], env)
+    a, b = _e_eval(e[1], env, strict), _e_eval(e[2], env, strict)
     if a is None or b is None:
         return None
+    if e[0] == 'div':
+        if b == 0:
+            return None
+        if strict and not _pow2(b):
+            raise OverflowError
+        r = a / b
+        if strict and (abs(r.numerator) > MAXNUM or r.denominator > MAXDEN):
+            raise OverflowError
+        return r
     r = {'+': lambda: a + b, '-': lambda: a - b, '*': lambda: a * b, 'min': lambda: min(a, b),
          'max': lambda: max(a, b)}[e[0]]()
-    if abs(r.numerator) > MAXNUM or r.denominator > MAXDEN:
+    if strict and (abs(r.numerator) > MAXNUM or r.denominator > MAXDEN):
         raise OverflowError
     return r
 
@@ -119,6 +145,8 @@ def e_str(e):
         return '(%s / %s)' % (e_str(e[1]), e_str(['c', e[2]]))
     if e[0] in ('min', 'max'):
         return '%s(%s, %s)' % (e[0].capitalize(), e_str(e[1]), e_str(e[2]))
+    if e[0] == 'div':
+        return '(%s / %s)' % (e_str(e[1]), e_str(e[2]))
     return '(%s %s %s)' % (e_str(e[1]), e[0], e_str(e[2]))
 
 
@@ -292,9 +320,22 @@ def rnd_expr(rng, avail, missing_ok):
     def node(d):
         if d == 0 or rng.random() < 0.35:
             return leaf()
-        op = rng.choice(['+', '+', '+', '-', '-', '-', '*', '*', '/', 'min', 'max'])
+        op = rng.choice(['+', '+', '+', '-', '-', '-', '*', '*', '/', 'min', 'max', 'div'])
         if op == '/':
             return ['/', node(d - 1), rng.choice(['2', '2', '4', '-2', '8', '1/2'])]
+        if op == 'div':
+            # divisor: mostly a variable (cases whose divisor value is not +-2^k are discarded by `bounded`; value 0 =
+            # the scope does not denote), sometimes clamped into [1, 2], sometimes any sub-expression
+            q = rng.random()
+            if q < 0.55 and pool:
+                dv = ['v', pool.pop(0)]
+            elif q < 0.75 and pool:
+                dv = ['min', ['max', ['v', pool.pop(0)], ['c', '1']], ['c', '2']]
+            elif q < 0.85:
+                dv = ['c', rng.choice(['2', '4', '-2', '1/2'])]
+            else:
+                dv = node(d - 1)
+            return ['div', node(d - 1), dv]
         a, b = node(d - 1), node(d - 1)
         if op == '*':
             # no multiplication by the constant 0 (sympy would cancel the variables)
@@ -320,7 +361,9 @@ def rnd_indep_expr(rng, avail):
     dependence without semantic dependence)"""
     x = ['v', rng.choice(avail)]
     y = ['v', rng.choice(avail)] if rng.random() < 0.7 else ['c', str(rnd_value(rng))]
-    k = rng.choice(['zero', 'zero', 'minus', 'minus', 'poly', 'minmax'])
+    k = rng.choice(['zero', 'zero', 'minus', 'minus', 'poly', 'minmax', 'ratio'])
+    if k == 'ratio':
+        return ['div', ['*', x, y], x]         # sympy cancels x (the source text has no value at x = 0, sympy's tree has)
     if k == 'zero':
         return ['+', ['*', ['c', '0'], x], y]
     if k == 'minus':
@@ -336,7 +379,7 @@ def e_cancels(e):
         return False
     if e[0] == '*':
         for x in (e[1], e[2]):
-            if not e_vars(x) and e_eval(x, {}) == 0:
+            if not e_vars(x) and e_eval(x, {}, strict=False) == 0:
                 return True
     if e[0] == '/':
         return e_cancels(e[1])
@@ -420,9 +463,36 @@ def rnd_stack(rng, layers, malformed, allow_joint=True):
     return s
 
 
+def s_partial(s):
+    """every parameter value the implementation can compute, also when the scope as a whole does not denote (some other
+    mapping expression has a missing variable / a zero divisor); raises OverflowError when one of them leaves the
+    exactness bounds"""
+    t = s['t']
+    if t == 'dict':
+        return {k: V(v) for k, v in s['vals']}
+    if t == 'mapped':
+        d = s_partial(s['o'])
+        out = {k: v for k, v in d.items() if k not in {n for n, _ in s['m']}}
+        for k, e in s['m']:
+            v = e_eval(e, d)
+            if v is not None:
+                out[k] = v
+        return out
+    if t == 'range':
+        d = dict(s_partial(s['i']))
+        d[s['n']] = V(s['v'])
+        return d
+    out = {}
+    for k, sub in s['l']:
+        d = s_partial(sub)
+        if k in d:
+            out[k] = d[k]
+    return out
+
+
 def bounded(s):
     try:
-        s_denote(s)
+        s_partial(s)
         return True
     except OverflowError:
         return False
@@ -645,6 +715,8 @@ def fam_layers():
         M((x, _v(w)), (w, ['c', '2'])),                         # second volatile name (if any) renamed and overwritten
         M((y, ['+', _v(x), _v(v)])),                            # refers to a name that only another layer provides
         M((a, ['min', _v(a), _v(v)])),
+        M((x, ['div', _v(v), _v(b)])),                          # volatile dividend, divisor a plain constant name
+        M((x, ['div', _v(a), ['min', ['max', _v(v), ['c', '1']], ['c', '2']]])),   # volatile divisor (clamped to [1, 2])
         R(a, '0'), R(v, '4'), R(w, '0'), R(x, '2'),             # index = constant / volatile / (maybe) mapped / fresh name
         ('joint2',), ('jointop',),                              # one object under two names; VolatileValue.operation shape
     ]
@@ -700,20 +772,39 @@ def fam_history(s):
 def family_names(max_depth, third=None, thin=1):
     """every stack of <= max_depth layers of fam_layers over every root of fam_roots, with fam_history; `third` restricts
     the layers used at depth 3; thin > 1 (quick tier): the two-layer stacks over the first and the third root are
-    thinned to every thin-th combination (fixed, not random), the root with two volatile constants gets all of them"""
+    thinned to every thin-th combination, those over the root with two volatile constants to every second one (fixed,
+    not random); cases that leave the exactness bounds (a divisor value that is not +-2^k) are dropped"""
     layers = fam_layers()
     out = []
     for ri, root in enumerate(fam_roots()):
         for depth in range(0, max_depth + 1):
             for ci, combo in enumerate(itertools.product(*[(layers if (k < 2 or third is None) else third)
                                                            for k in range(depth)])):
-                if thin > 1 and depth == 2 and ri != 1 and ci % thin != ri:
+                if thin > 1 and depth == 2 and (ci % thin != ri if ri != 1 else ci % 2 != 0):
                     continue
                 s = root
                 for layer in combo:
                     s = fam_apply(s, layer)
-                out.append({'kind': 'hist', 'scope': s, 'ops': fam_history(s), 'src': 'family'})
+                ops = fam_history(s)
+                if history_bounded(s, ops):
+                    out.append({'kind': 'hist', 'scope': s, 'ops': ops, 'src': 'family'})
     return out
+
+
+def history_bounded(s, ops):
+    """every scope of the history and every environment of a volatile query is within the exactness bounds"""
+    cur = s
+    for op in ops:
+        if op[0] == 'change':
+            cur = s_rebuild(cur, dict(op[1]))
+        elif op[0] == 'overwrite':
+            cur = s_overwrite(cur, op[1])
+        elif op[0] == 'volx':
+            if not all(bounded(s_rebuild(cur, dict(env))) for env in op[1]):
+                return False
+        if not bounded(cur):
+            return False
+    return True
 
 
 def exhaustive_small(rng, frac):
@@ -844,9 +935,10 @@ def sym_to_json(x):
     if x.is_Add or x.is_Mul or isinstance(x, (sympy.Min, sympy.Max)):
         op = '+' if x.is_Add else '*' if x.is_Mul else 'min' if isinstance(x, sympy.Min) else 'max'
         return functools.reduce(lambda a, b: [op, a, b], [sym_to_json(a) for a in x.args])
-    if x.is_Pow and x.exp.is_Integer and 1 <= int(x.exp) <= 4:
+    if x.is_Pow and x.exp.is_Integer and 1 <= abs(int(x.exp)) <= 4:
         b = sym_to_json(x.base)
-        return functools.reduce(lambda a, c: ['*', a, c], [b] * int(x.exp))
+        p = functools.reduce(lambda a, c: ['*', a, c], [b] * abs(int(x.exp)))
+        return p if int(x.exp) > 0 else ['div', ['c', '1'], p]
     raise ValueError('unsupported sympy node %r' % (x,))
 
 
@@ -869,7 +961,7 @@ def canon(e):
             raise RuntimeError('harness: sympy reports variables %r for %s' % (ex.variables, key))
         for k in (1, 2, 3):
             env = {n: F(3 * i + k, 2) for i, n in enumerate(NAMES)}
-            if e_eval(e, env) != e_eval(c, env):
+            if e_eval(e, env, strict=False) != e_eval(c, env, strict=False):
                 raise RuntimeError('harness: %s and the tree sympy holds differ in value' % key)
     _CANON_CACHE[key] = c
     return c
@@ -941,7 +1033,11 @@ def _volx(cur, envs):
         for env in envs:
             try:
                 vals.append(vlib.frac_json(vp[name].evaluate_in_scope({n: _py_value(v) for n, v in env})))
-            except ExpressionVariableMissingException:
+            except vlib.Timeout:
+                raise
+            except Exception:
+                # no value in this environment: a variable is missing, a divisor is 0 there (ZeroDivisionError / inf /
+                # sympy's zoo).  The Coq side accepts this only where the model's expression has no value either.
                 vals.append(None)
         out.append([name, vals])
     return out
@@ -1008,7 +1104,7 @@ def g_expr(e):
         return '(EVar %s)' % g_name(e[1])
     if e[0] == '/':
         return '(EDivC %s %s)' % (g_expr(e[1]), gQ(V(e[2])))
-    return '(%s %s %s)' % ({'+': 'EAdd', '-': 'ESub', '*': 'EMul', 'min': 'EMin', 'max': 'EMax'}[e[0]],
+    return '(%s %s %s)' % ({'+': 'EAdd', '-': 'ESub', '*': 'EMul', 'min': 'EMin', 'max': 'EMax', 'div': 'EDiv'}[e[0]],
                            g_expr(e[1]), g_expr(e[2]))
 
 
@@ -1106,6 +1202,8 @@ def histogram_keys(case, obs):
         ops_ = e_ops(ex)
         if '/' in ops_:
             keys.append('expr:div')
+        if 'div' in ops_:
+            keys.append('expr:div-by-expression')
         if ops_ & {'min', 'max'}:
             keys.append('expr:minmax')
         try:
